@@ -1073,6 +1073,28 @@ class NativeBookkeeping(NativeCheck):
             for s_, hs in want.items():
                 if sorted(got.get(s_, '').split(' ')) != sorted(hs):
                     return dict(call=f'mergeFasta of {syn}: header of {s_}', observed=got.get(s_), expected=' '.join(hs), signature='merge-header-entry-dropped')
+            # the same with --dedup-header: of the entries of a peptide the first with each text before the index stays, nothing else goes
+            # (one label being contained in another, longer one must not matter)
+            dsyn = [[('ENST0001.1|SNV-100-A-T|SNV-110-G-C|2', 'MKPEPTIDER'), ('FUSION-ENST0002.1:10-ENST0003.1:20|SNV-5-A-T|1', 'GGGK'), ('ENST0005.1|INDEL-20-A-AT|3', 'TTTK')],
+                    [('ENST0001.1|SNV-100-A-T|5', 'MKPEPTIDER'), ('FUSION-ENST0002.1:10-ENST0003.1:20|4', 'GGGK'), ('ENST0005.1|INDEL-20-A-A|1', 'TTTK')],
+                    [('ENST0001.1|SNV-100-A-T|7', 'MKPEPTIDER'), ('ENST0001.1|SNV-100-A-T|SNV-110-G-C|9', 'MKPEPTIDER')]]
+            dpaths = []
+            for i, recs in enumerate(dsyn):
+                dpaths.append(d / f'dsyn_{i}.fasta')
+                with open(dpaths[-1], 'w') as fh:
+                    for h, s_ in recs:
+                        fh.write(f'>{h}\n{s_}\n')
+            cli.merge_fasta(argparse.Namespace(command='mergeFasta', input_path=dpaths, output_path=d / 'dsyn_merged.fasta', dedup_header=True, quiet=True))
+            dwant = {}
+            for recs in dsyn:
+                for h, s_ in recs:
+                    lst = dwant.setdefault(s_, [])
+                    if h.rsplit('|', 1)[0] not in [x.rsplit('|', 1)[0] for x in lst]:
+                        lst.append(h)
+            dgot = dict((s_, h) for h, s_ in _read_fasta(d / 'dsyn_merged.fasta'))
+            for s_, hs in dwant.items():
+                if dgot.get(s_, '').split(' ') != hs:
+                    return dict(call=f'mergeFasta --dedup-header of {dsyn}: header of {s_}', observed=dgot.get(s_), expected=' '.join(hs), signature='dedup-header-entry-dropped')
             # encode + dictionary restores every header (with a decoy copy of every record)
             for pos in ('prefix', 'suffix'):
                 src = d / f'td_{pos}.fasta'
